@@ -239,6 +239,27 @@ class Ctx:
         self.checker_cmds.append("coqc -Q coq/lib EFLib -Q coq/model EFModel -Q build/%s %s %s" % (self.pid, logical, " ".join(files)))
         return res
 
+    def coqchk(self, modules, timeout=1200, logical="EFP"):
+        """Independent re-check (coqchk -o) of compiled modules of the build dir, e.g.
+        ["C06_lagrange"]; records the axioms coqchk reports.  Thorough tier only (minutes)."""
+        cmd = ["coqchk", "-o", "-silent"] + COQ_Q + ["-Q", self.build, logical] + ["%s.%s" % (logical, m) for m in modules]
+        t = time.time()
+        rc, out, err = sh(cmd, cwd=self.build, timeout=timeout)
+        txt = out + err
+        self.obligation("coqchk:" + ",".join(modules), rc == 0, txt[-800:] if rc else "%.0fs" % (time.time() - t))
+        grab = False
+        for line in txt.splitlines():
+            if line.strip().startswith("* Axioms:"):
+                grab = True
+                continue
+            if grab:
+                if line.startswith("    "):
+                    self.trusted.add("axiom (coqchk -o): " + line.strip())
+                elif line.strip().startswith("*"):
+                    grab = False
+        self.checker_cmds.append("coqchk -o " + " ".join(modules))
+        return rc == 0, txt
+
     def coq_eval(self, fname, body, timeout=600):
         """Write build/<fname> with `body`, compile it, return (rc, stdout+stderr)."""
         path = os.path.join(self.build, fname)
